@@ -444,6 +444,35 @@ def list_composition(func, name, before, depth=0):
     return out
 
 
+def iter_composition(func, lp):
+    """list_composition() of what a for loop iterates: a local list, or an
+    expression made of local lists, literals and calls joined by `+`"""
+    it = lp.iter
+    if isinstance(it, ast.Name):
+        return list_composition(func, it.id, lp)
+    toks, work, parts = [], [it], []
+    while work:
+        e = work.pop()
+        if isinstance(e, ast.BinOp) and isinstance(e.op, ast.Add):
+            work += [e.right, e.left]
+        else:
+            parts.append(e)
+    for e in parts:
+        if isinstance(e, (ast.List, ast.Tuple)):
+            toks += [('elem', x) for x in e.elts]
+        elif isinstance(e, ast.Name):
+            toks += list_composition(func, e.id, lp)
+        elif isinstance(e, ast.Call) and dotted(e.func) in (
+                'list', 'tuple') and len(e.args) == 1 and \
+                isinstance(e.args[0], ast.Name):
+            toks += list_composition(func, e.args[0].id, lp)
+        elif isinstance(e, ast.Call):
+            toks += [('call', e)]
+        else:
+            toks += [('unknown', e)]
+    return toks
+
+
 def validated_entry_is_deleted_last(repo, rep):
     """C11.R5: DeleteInstance of a multi-namespace association removes one
     copy of the instance per namespace.  Only the copy in the namespace of
@@ -484,29 +513,7 @@ def validated_entry_is_deleted_last(repo, rep):
     r5.functions.add(f.fq)
     for lp in loops:
         r5.sites += 1
-        if isinstance(lp.iter, ast.Name):
-            toks = list_composition(f, lp.iter.id, lp)
-        else:
-            toks = [('unknown', lp.iter)]
-            if isinstance(lp.iter, ast.BinOp):
-                toks = []
-                work = [lp.iter]
-                parts = []
-                while work:
-                    e = work.pop()
-                    if isinstance(e, ast.BinOp) and isinstance(e.op, ast.Add):
-                        work += [e.right, e.left]
-                    else:
-                        parts.append(e)
-                for e in parts:
-                    if isinstance(e, (ast.List, ast.Tuple)):
-                        toks += [('elem', x) for x in e.elts]
-                    elif isinstance(e, ast.Name):
-                        toks += list_composition(f, e.id, lp)
-                    elif isinstance(e, ast.Call):
-                        toks += [('call', e)]
-                    else:
-                        toks += [('unknown', e)]
+        toks = iter_composition(f, lp)
         where = [i for i, (k_, v) in enumerate(toks)
                  if k_ == 'elem' and norm(v) in req]
         if any(k_ == 'unknown' for k_, _v in toks) or not toks:
@@ -577,7 +584,7 @@ def write_loops_are_duplicate_free(repo, rep, rid='C11.R3'):
         return True
     for f in cls.methods.values():
         for lp in walk_no_nested(f.node):
-            if not (isinstance(lp, ast.For) and isinstance(lp.iter, ast.Name)):
+            if not isinstance(lp, ast.For):
                 continue
             writes_ = [c for c in ast.walk(lp) if isinstance(c, ast.Call) and
                        isinstance(c.func, ast.Attribute) and
@@ -585,7 +592,7 @@ def write_loops_are_duplicate_free(repo, rep, rid='C11.R3'):
                        norm(c.func.value).endswith('_store')]
             if not writes_:
                 continue
-            toks = list_composition(f, lp.iter.id, lp)
+            toks = iter_composition(f, lp)
             helpers = [cls.find_method((dotted(v.func) or '')[5:])
                        for k_, v in toks if k_ == 'call' and
                        (dotted(v.func) or '').startswith('self.')]
@@ -594,11 +601,11 @@ def write_loops_are_duplicate_free(repo, rep, rid='C11.R3'):
             r3.sites += 1
             r3.functions.add(f.fq)
             ok = all(set_built(h) for h in helpers)
-            r3.ob(ok, '%s|for %s' % (f.qualname, lp.iter.id),
+            r3.ob(ok, '%s|for %s' % (f.qualname, norm(lp.iter, 40)),
                   {'helpers': [h.qualname for h in helpers]})
             if not ok:
                 rep.finding(r3, f.qualname, 'for %s in %s' % (
-                    norm(lp.target), lp.iter.id), 'duplicates-possible',
+                    norm(lp.target), norm(lp.iter, 40)), 'duplicates-possible',
                     IWPF, lp.lineno,
                     'one store entry is written per element of %s, which '
                     'comes from %s; that helper does not build its result '
@@ -607,7 +614,8 @@ def write_loops_are_duplicate_free(repo, rep, rid='C11.R3'):
                     'delete of the same entry is refused after the first '
                     'one removed it - the operation raises but the '
                     'repository has changed'
-                    % (lp.iter.id, ', '.join(h.qualname for h in helpers)))
+                    % (norm(lp.iter, 40),
+                       ', '.join(h.qualname for h in helpers)))
     if r3.sites < 1:
         raise AnalysisError('C11.R3: no per-element store write loop found')
 
